@@ -191,7 +191,7 @@ pub fn cases(ctx: &Ctx) -> Vec<Case> {
     let target = out.len() + ctx.n;
     while out.len() < target {
         let pdus = gen_seq(&mut r);
-        let (mut stream, bounds) = encode_all(&pdus);
+        let (mut stream, _bounds0) = encode_all(&pdus);
         let mut complete = true;
         let mut n = pdus.len();
         match r.below(12) {
@@ -200,8 +200,22 @@ pub fn cases(ctx: &Ctx) -> Vec<Case> {
             2 => { n += 1; }                                                                                              // one receive too many: closed
             _ => {}
         }
+        // exact-fill boundary: make the stream a multiple of the 8192-byte BufReader capacity
+        let style = i % 10;
+        let mut pdus = pdus;
+        if style >= 8 && complete && n == pdus.len() {
+            let l = stream.len() + 12;
+            let target = (l + 8191) / 8192 * 8192;
+            let p = Pdu::PData { data: vec![PDataValue { presentation_context_id: 1, value_type: PDataValueType::Data, is_last: true, data: vec![0x5a; target - l] }] };
+            write_pdu(&mut stream, &p).unwrap();
+            pdus.push(p);
+            n += 1;
+        }
+        let bounds: Vec<usize> = { let mut b = vec![]; let mut s = 0; for p in &pdus { s += do_write(p).and_then(|w| w.ok()).map_or(0, |x| x.len()); b.push(s); } b };
         let total = stream.len();
-        let (seg, cuts): (&'static str, Vec<usize>) = match i % 8 {
+        let (seg, cuts): (&'static str, Vec<usize>) = match style {
+            8 => ("capacity-8192", (1..=total / 8192).map(|k| k * 8192).collect()),
+            9 => { let m = *r.pick(&[64usize, 128, 1024, 4096, 16384]); ("capacity-sized", (1..=total / m).map(|k| k * m).collect()) }
             0 => ("one-byte", (1..total).collect()),
             1 => ("single-chunk", vec![]),
             2 => ("pdu-boundaries", bounds.clone()),
@@ -209,7 +223,8 @@ pub fn cases(ctx: &Ctx) -> Vec<Case> {
             4 => ("boundaries-plus-1", bounds.iter().map(|b| b + 1).collect()),
             5 => { let mut c: Vec<usize> = bounds.iter().flat_map(|b| [b.saturating_sub(3), b + 5, b + 6, b + 7]).collect(); c.sort(); c.dedup(); ("around-headers", c) }
             6 => { let m = r.range(1, 7); let mut c = vec![]; let mut a = 0; while a < total { a += r.range(1, m) as usize; c.push(a); } ("random-small", c) }
-            _ => { let m = *r.pick(&[16u64, 64, 300, 5000, 20000]); let mut c = vec![]; let mut a = 0; while a < total { a += r.range(1, m) as usize; c.push(a); } ("random", c) }
+            7 => { let m = *r.pick(&[16u64, 64, 300, 5000, 20000]); let mut c = vec![]; let mut a = 0; while a < total { a += r.range(1, m) as usize; c.push(a); } ("random", c) }
+            _ => ("single-chunk", vec![]),
         };
         let mut chunks = cut(&stream, &cuts);
         if r.chance(1, 30) && !chunks.is_empty() { let k = r.below(chunks.len() as u64) as usize; chunks.insert(k, vec![]); complete = false; }   // a read of 0 bytes mid-stream
